@@ -595,13 +595,56 @@ fn run_shuffle_census_t<E: Clone>(n: usize, kind: usize, seeds: u64, base: u64, 
     }
 }
 
+/// the ways of asking for a value of `len` possibilities through the generator (consecutive draws of ONE generator)
+const SERIAL_FORMS: [&str; 10] = [
+    "0..len (u64)",
+    "0..=len-1 (u32)",
+    "..len (u16)",
+    "..=len-1 (i64)",
+    "-k..len-k (i32)",
+    ".. (u8, all 256 values)",
+    "u8::MIN..=u8::MAX",
+    "i8::MIN..=i8::MAX",
+    "low byte of a full-range u64 draw (..)",
+    "low bit of a full-range i64 draw (..)",
+];
+
+fn serial_form_len(form: usize, len: u64) -> u64 {
+    match form {
+        5 | 6 | 7 | 8 => 256,
+        9 => 2,
+        2 => len.min(60_000),
+        _ => len,
+    }
+}
+
 fn run_serial(len: u64, seed0: u64, draws: usize, report: &mut Report) {
+    run_serial_form(0, len, seed0, draws, report)
+}
+
+fn run_serial_form(form: usize, len: u64, seed0: u64, draws: usize, report: &mut Report) {
+    let len = serial_form_len(form, len);
     report.inc("evaluations");
-    report.see("nontrivial", mix(&[18, len, seed0]));
-    let replay = vec!["--mode".into(), "streams".into(), "--case".into(), format!("serial:{}:{}:{}", len, seed0, draws)];
+    report.see("nontrivial", mix(&[18, len, seed0, form as u64]));
+    report.see_str("serial_range_forms", SERIAL_FORMS[form]);
+    let replay = vec!["--mode".into(), "streams".into(), "--case".into(), format!("serial:{}:{}:{}:{}", len, seed0, draws, form)];
     let r = catch(|| {
         let mut g = Rng::from_seed(seed0);
-        let v: Vec<u64> = (0..draws).map(|_| lib!(g.next(0..len))).collect();
+        let k = (len / 3) as i32;
+        let v: Vec<u64> = (0..draws)
+            .map(|_| match form {
+                0 => lib!(g.next(0..len)),
+                1 => lib!(g.next(0..=(len - 1) as u32)) as u64,
+                2 => lib!(g.next(..len as u16)) as u64,
+                3 => lib!(g.next(..=(len - 1) as i64)) as u64,
+                4 => (lib!(g.next(-k..(len as i32 - k))) + k) as u64,
+                5 => lib!(g.next::<u8, _>(..)) as u64,
+                6 => lib!(g.next(u8::MIN..=u8::MAX)) as u64,
+                7 => (lib!(g.next(i8::MIN..=i8::MAX)) as i64 + 128) as u64,
+                8 => lib!(g.next::<u64, _>(..)) & 0xff,
+                _ => (lib!(g.next::<i64, _>(..)) & 1) as u64,
+            })
+            .collect();
         v
     });
     let v = match r {
@@ -631,6 +674,7 @@ fn run_serial(len: u64, seed0: u64, draws: usize, report: &mut Report) {
                 Json::obj()
                     .set("what", "consecutive draws from a small range repeat with a short exact period")
                     .set("range_len", len)
+                    .set("range_form", SERIAL_FORMS[form])
                     .set("seed", seed0)
                     .set("period", p)
                     .set("first_draws", Json::from(v.iter().take(24).cloned().collect::<Vec<u64>>())),
@@ -839,7 +883,7 @@ fn main() {
                 let p: Vec<&str> = c.split(':').collect();
                 match p[0] {
                     "shuffle" => run_shuffle_census_elem(p.get(5).map(|x| x.parse().unwrap()).unwrap_or(0), p[1].parse().unwrap(), p[2].parse().unwrap(), p[3].parse().unwrap(), p[4].parse().unwrap(), &mut report),
-                    "serial" => run_serial(p[1].parse().unwrap(), p[2].parse().unwrap(), p[3].parse().unwrap(), &mut report),
+                    "serial" => run_serial_form(p.get(4).map(|x| x.parse().unwrap()).unwrap_or(0), p[1].parse().unwrap(), p[2].parse().unwrap(), p[3].parse().unwrap(), &mut report),
                     _ => run_determinism(seed, false, &mut report),
                 }
                 eng.finish(report);
@@ -866,12 +910,36 @@ fn main() {
                     tasks.push((1, len, s0, 8192));
                 }
             }
+            // the same serial tests through every other way of writing the range (kind 2: a = form, b = len, c = seed)
+            for form in 1..SERIAL_FORMS.len() as u64 {
+                for &len in &[2u64, 3, 7, 16, 100, 256] {
+                    tasks.push((2, form, len, if len % 2 == 0 { 42 } else { hr.next_u64() }));
+                    if form >= 5 {
+                        break; // these forms have a fixed number of values
+                    }
+                }
+            }
+            // every range length up to 2048 and the divisors of 2^16 +- 1, 2^32 +- 1, 2^64 - 1 (an output whose halves are
+            // correlated is constant or lopsided modulo exactly such a length): value frequencies over 48*len draws
+            let mut lens: Vec<u64> = (2..=2048).collect();
+            lens.extend([4369u64, 21845, 65535, 65537, 6_700_417 % 100_003, 641 * 3, 641 * 5, 257 * 17, 3 * 5 * 17 * 257, 16_843_009 % 70_001]);
+            for (j, &len) in lens.iter().enumerate() {
+                tasks.push((3, len, if j % 3 == 0 { 42 } else { hr.next_u64() }, 48 * len));
+            }
             let q = WorkQueue::new(tasks.len() as u64);
             let tasks = &tasks;
             let rep = common::run_sharded(a.threads(), |_s, rep| {
                 rep.sample_cap = 24;
                 while let Some(i) = q.take() {
                     let t = tasks[i as usize];
+                    if t.0 == 2 {
+                        run_serial_form(t.1 as usize, t.2, t.3, 8192, rep);
+                        continue;
+                    }
+                    if t.0 == 3 {
+                        run_serial_form((t.1 % 2) as usize, t.1, t.2, (t.3 as usize).max(4096), rep);
+                        continue;
+                    }
                     if t.0 == 0 && t.2 >= 100 {
                         run_shuffle_census_elem((t.2 / 100) as usize, t.1 as usize, (t.2 % 100) as usize, seeds_per_census / 2, t.3, rep);
                     } else if t.0 == 0 {
